@@ -90,6 +90,8 @@ fn main() {
             let stats = mc::c15::c15(&mut run, &workers);
             run.finish(&stats)
         }
+        #[cfg(feature = "pattern")]
+        "C20" => simple_cmd("C20", mc::c20::c20),
         "C16" => simple_cmd("C16", mc::apichecks::c16),
         "C17" => simple_cmd("C17", mc::apichecks::c17),
         "C18" => simple_cmd("C18", mc::apichecks::c18),
